@@ -65,6 +65,29 @@ where
         }
     }
 
+    /// Take over the context the node that is being serialized stands in:
+    /// no white space is added inside an ancestor with mixed content, inside
+    /// a suppressed ancestor, or where the `xml:space="preserve"` of an
+    /// ancestor is in force. The entry pushed here counts for no indentation
+    /// and is never popped.
+    pub(crate) fn seed_context(&mut self, top: Node) {
+        let mut space = Space::Empty;
+        for ancestor in self.xot.ancestors(top).skip(1) {
+            if let Some(element) = self.xot.element(ancestor) {
+                if (self.is_suppressed)(element.name()) || self.has_inline_child(ancestor) {
+                    self.mixed();
+                    return;
+                }
+                if space == Space::Empty {
+                    space = self.element_space(ancestor);
+                }
+            }
+        }
+        if space == Space::Preserve {
+            self.unmixed(Space::Preserve);
+        }
+    }
+
     fn unmixed(&mut self, space: Space) {
         self.stack.push(StackEntry::Unmixed(space));
     }
